@@ -465,6 +465,11 @@ def check_C13(ctx, thms=None):
         (2, [(0, [n_(1)]), (1, [t_(1), t_(2), n_(1)]), (1, [t_(1)])], [[1, 2] * k + [1] for k in range(0, 20)] + [[1, 2] * 5]),      # x ; x ; x
         (2, [(0, [t_(1), n_(1)]), (1, [t_(1), n_(1)]), (1, [t_(2)])], [[1] * k + [2] for k in range(0, 40)]),   # a+ b, right recursive
     ]
+    fixed += [
+        (3, [(0, [n_(2), t_(3)]), (0, [n_(1)]), (1, [t_(1), n_(1)]), (1, [t_(2)])], [[1] * k + [2] for k in range(0, 8)] + [[3], [1, 3]]),   # S -> U x | A (U without rules)
+        (3, [(0, [n_(1)]), (0, [n_(2), t_(3)]), (1, [t_(1), n_(1)]), (1, [t_(2)])], [[1] * k + [2] for k in range(0, 8)] + [[3]]),          # S -> A | U x
+        (3, [(0, [t_(1), n_(2)]), (0, [t_(1), n_(1)]), (1, [t_(2)]), (1, [n_(2), t_(2)])], [[1, 2], [1], [1, 2, 2]]),                        # useless symbol behind a terminal
+    ]
     for (N, rules, inputs) in fixed:
         mt = max(s_[1] for (_, a_) in rules for s_ in a_ if s_[0] == 't')
         for prefix in (False, True):
